@@ -42,7 +42,22 @@ func newEvalNode(et *ExecutingTask, n *pipeline.EvalNode, d NodeDiagnostic) (*Ev
 		}
 		en.expressions[i] = statefulExpr
 		refVars := ast.FindReferenceVariables(lambda.Expression)
-		en.refVarList[i] = refVars
+		// The results of earlier expressions are available to later expressions,
+		// do not refill those names from a field or tag of the same name.
+		filtered := refVars[:0:0]
+		for _, v := range refVars {
+			isResult := false
+			for _, as := range n.AsList[:i] {
+				if as == v {
+					isResult = true
+					break
+				}
+			}
+			if !isResult {
+				filtered = append(filtered, v)
+			}
+		}
+		en.refVarList[i] = filtered
 	}
 	// Create a single pool for the combination of all expressions
 	en.scopePool = stateful.NewScopePool(ast.FindReferenceVariables(expressions...))
